@@ -58,7 +58,7 @@ int main(int argc, char** argv) {
       vnum::cmd(tok, out);
     } else if (tok[0] == "ondemand" || tok[0] == "pod") {
       vod::cmd(tok, out);
-    } else if (tok[0] == "schema" || tok[0] == "schema-copy" || tok[0] == "schema-swap" || tok[0] == "schema-reparse" || tok[0].compare(0, 11, "schema-prep") == 0 || tok[0] == "lazy") {
+    } else if (tok[0] == "docbuf" || tok[0] == "schema" || tok[0] == "schema-copy" || tok[0] == "schema-swap" || tok[0] == "schema-reparse" || tok[0].compare(0, 11, "schema-prep") == 0 || tok[0] == "lazy") {
       vmerge::cmd(tok, out);
     } else if (tok[0].compare(0, 4, "dom-") == 0) {
       vdom::cmd(tok, out);
